@@ -210,7 +210,7 @@ def matrix(dud, drv, base, R):
     for args, uses_prepare in SUBCOMMANDS:
         for where in ("root", "sub"):
             for outcome in ("ok", "fail", "prelocked", "profile-unwritable", "trace-unwritable", "outside-target",
-                            "blocked-by-file", "missing-output", "exit-126"):
+                            "blocked-by-file", "missing-output", "exit-126", "cache-dangling"):
                 # failures for OTHER reasons than a broken index: a file in the way of checkout (EEXIST), a missing output at
                 # commit (ENOENT), a stage command that cannot be executed
                 if outcome == "blocked-by-file" and args[0] not in ("checkout", "pull"):
@@ -218,6 +218,8 @@ def matrix(dud, drv, base, R):
                 if outcome == "missing-output" and args[0] not in ("commit",):
                     continue
                 if outcome == "exit-126" and args[0] not in ("run",):
+                    continue
+                if outcome == "cache-dangling" and args[0] not in ("commit", "fetch"):
                     continue
                 if outcome.endswith("unwritable") and args[0] not in ("status", "commit", "run"):
                     continue
@@ -248,6 +250,12 @@ def matrix(dud, drv, base, R):
                         a = a + ["--copy"]
                 if outcome == "missing-output":
                     os.unlink(os.path.join(root, "out.txt"))
+                if outcome == "cache-dangling":
+                    # the cache directory is a link to a disk that is not mounted: creating anything in it fails with EEXIST / ENOENT
+                    shutil.rmtree(os.path.join(root, ".dud", "cache"))
+                    os.symlink(os.path.join(base, "unmounted-disk-%d" % k, "cache"), os.path.join(root, ".dud", "cache"))
+                    os.unlink(os.path.join(root, "out.txt"))
+                    open(os.path.join(root, "out.txt"), "w").write("new content to commit")
                 if outcome == "exit-126":
                     with open(os.path.join(root, "s.yaml"), "w") as f:
                         f.write("command: exit 126\noutputs:\n  out.txt: {}\n")
